@@ -134,6 +134,13 @@ CHECKS = {
        '(exhaustive enumeration by symbolic index); an XHTML+SVG+xlink document from lxml-xml and html5lib under 7 prefix maps.',
   design_ref='DESIGN.md §4 C12',
   technique='CrossHair symbolic execution of real matcher + z3 (symbolic URIs), reference namespace predicate, replay'),
+ 'C19': dict(
+  text='Symbolic/differential checking of the real match_contains with symbolic search strings on every element of 60/300 '
+       'seeded trees mixing text, comment, CDATA, PI, declaration, doctype, element and iframe nodes (HTML and XML); the '
+       'same relation through the real parser and select() for 14 search strings x 7 forms on 400/3000 trees; :empty on the '
+       'same trees and on a child with symbolic content over all of Unicode.',
+  design_ref='DESIGN.md §4 C19',
+  technique='CrossHair symbolic execution of real match_contains/match_empty + z3 (symbolic search strings), reference text oracle, replay'),
 }
 
 NOT_APPLICABLE = {
